@@ -266,22 +266,43 @@ schema_rank(const struct lyd_node *n, const struct lysc_node *sparent)
     return -1;
 }
 
-/* independent ordering oracle: by the type tag of the descriptor */
+/* independent ordering oracle: by the type tag of the descriptor; list instances by all their keys in SCHEMA order, each
+ * key looked up by its schema node (not by its position among the children) */
 static int
-key_cmp(const struct lyd_node *a, const struct lyd_node *b)
+val_cmp(const struct lysc_node *s, const char *va, const char *vb)
 {
-    const char *kt = ktype_of(a->schema), *va, *vb;
+    const char *kt = ktype_of(s);
 
-    if (a->schema->nodetype == LYS_LIST) {
-        va = lyd_get_value(lyd_child(a)); vb = lyd_get_value(lyd_child(b));
-    } else {
-        va = lyd_get_value(a); vb = lyd_get_value(b);
-    }
+    if (!va || !vb) return va ? 1 : vb ? -1 : 0;
     if (!strcmp(kt, "i32") || !strcmp(kt, "u8")) {
         long long x = strtoll(va, NULL, 10), y = strtoll(vb, NULL, 10);
         return x < y ? -1 : x > y;
     }
     return strcmp(va, vb);
+}
+
+static const char *
+key_val(const struct lyd_node *inst, const struct lysc_node *ks)
+{
+    const struct lyd_node *c;
+
+    LY_LIST_FOR(lyd_child(inst), c) if (c->schema == ks) return lyd_get_value(c);
+    return NULL;
+}
+
+static int
+key_cmp(const struct lyd_node *a, const struct lyd_node *b)
+{
+    if (a->schema->nodetype == LYS_LIST) {
+        const struct lysc_node *ks;
+        int r;
+
+        for (ks = lysc_node_child(a->schema); ks && (ks->flags & LYS_KEY); ks = ks->next) {
+            if ((r = val_cmp(ks, key_val(a, ks), key_val(b, ks)))) return r;
+        }
+        return 0;
+    }
+    return val_cmp(a->schema, lyd_get_value(a), lyd_get_value(b));
 }
 
 static int
@@ -351,19 +372,39 @@ check_search(const struct lyd_node *parent, const struct lyd_node *first)
             if (r || !m || m->schema != n->schema || ((n->schema->nodetype & (LYS_LIST | LYS_LEAFLIST) || cnt == 1) && m != w)) V8(2);
         }
         if ((n->schema->nodetype == LYS_LEAFLIST) || ((n->schema->nodetype == LYS_LIST) && !(n->schema->flags & LYS_KEYLESS))) {
-            char pred[300];
-            const char *val;
+            char pred[600], rpred[600];
+            const char *val, *rval = NULL;
+            int quote = 0;
             if (n->schema->nodetype == LYS_LEAFLIST) {
                 val = lyd_get_value(n);
+                quote = strchr(val, '\'') != NULL;
             } else {
-                const struct lyd_node *k = lyd_child(n);
-                snprintf(pred, sizeof pred, "[%s='%s']", k->schema->name, lyd_get_value(k));
+                /* all keys, in schema order and in the reverse order (predicates may come in any order) */
+                const struct lysc_node *ks;
+                size_t l = 0;
+                pred[0] = rpred[0] = 0;
+                for (ks = lysc_node_child(n->schema); ks && (ks->flags & LYS_KEY); ks = ks->next) {
+                    const char *kv = key_val(n, ks);
+                    char one[280], tmp[600];
+                    if (!kv) { quote = 1; break; }        /* a key is missing (not-yet-valid instance): nothing to search by */
+                    if (strchr(kv, '\'')) quote = 1;
+                    snprintf(one, sizeof one, "[%s='%s']", ks->name, kv);
+                    l += snprintf(pred + l, sizeof pred - l, "%s", one);
+                    snprintf(tmp, sizeof tmp, "%s%s", one, rpred);
+                    snprintf(rpred, sizeof rpred, "%s", tmp);
+                }
                 val = pred;
+                if (strcmp(pred, rpred)) rval = rpred;
             }
-            if (!strchr(lyd_get_value(n->schema->nodetype == LYS_LEAFLIST ? n : lyd_child(n)), '\'')) {
+            if (!quote) {
                 m = NULL;
                 r = lyd_find_sibling_val(first, n->schema, val, 0, &m);
                 if (r || !m || m->parent != n->parent || !same_inst(m, n) || ((nequal == 1 || lysc_is_dup_inst_list(n->schema)) && m != want)) V8(3);
+                if (rval) {
+                    m = NULL;
+                    r = lyd_find_sibling_val(first, n->schema, rval, 0, &m);
+                    if (r || !m || m->parent != n->parent || !same_inst(m, n) || (nequal == 1 && m != want)) V8(14);
+                }
             }
         }
         if (path_checkable(n)) {
@@ -406,6 +447,7 @@ check_search(const struct lyd_node *parent, const struct lyd_node *first)
             const char *kt = ktype_of(sc);
             int isint = !strcmp(kt, "i32") || !strcmp(kt, "u8");
             if (!(sc->nodetype & (LYS_LIST | LYS_LEAFLIST)) || (sc->flags & LYS_KEYLESS)) continue;
+            if ((sc->nodetype == LYS_LIST) && lysc_node_child(sc)->next && (lysc_node_child(sc)->next->flags & LYS_KEY)) continue;  /* several keys */
             for (int i = 0; i < (isint ? 11 : 8); i++) {
                 const char *val = isint ? POOL_I[i] : POOL_S[i];
                 char pred[64];
@@ -986,6 +1028,45 @@ run_op(char *op, int last)
         int fid = m ? id_of(m) : -1;
         if (fid >= 0) fprintf(stdout, " %s F%d", rcname(r), fid);
         else fprintf(stdout, " %s F-", rcname(r));
+    } else if (law_mode && !strcmp(a[0], "newlist2") && na == 5) {
+        /* newlist2,<id>,<parent|->,<mod:name>,<predicates-hex>: lyd_new_list2 (keys as predicates, in any order) */
+        int id = atoi(a[1]);
+        struct lyd_node *parent = NULL, *node = NULL;
+        char mod[128], *nm, *pred;
+        const struct lys_module *m;
+        if (id < 0 || id >= KEYOFF || tab[id] || tab[id + KEYOFF]) REFUSE("IdInUse");
+        if (strcmp(a[2], "-") && !(parent = node_arg(a[2]))) REFUSE("NoNode");
+        if (parent && (!parent->schema || !(parent->schema->nodetype & LYD_NODE_INNER))) REFUSE("ParentNotInner");
+        snprintf(mod, sizeof mod, "%s", a[3]);
+        if (!(nm = strchr(mod, ':'))) REFUSE("BadArg");
+        *nm++ = 0;
+        if (!(m = ly_ctx_get_module_implemented(cur->ctx, mod))) REFUSE("BadArg");
+        if (!(pred = vp_unhex(a[4], NULL))) REFUSE("BadArg");
+        LY_ERR r = lyd_new_list2(parent, m, nm, pred, 0, &node);
+        free(pred);
+        if (!r && node) {
+            tab[id] = node;
+            register_new(node);
+        }
+        done(r, search);
+    } else if (law_mode && !strcmp(a[0], "newpath") && na == 5) {
+        /* newpath,<id>,<parent|->,<path-hex>,<value-hex>: lyd_new_path; every node it creates gets an id */
+        int id = atoi(a[1]);
+        struct lyd_node *parent = NULL, *node = NULL, *top;
+        char *path, *val;
+        if (id < 0 || id >= KEYOFF || tab[id] || tab[id + KEYOFF]) REFUSE("IdInUse");
+        if (strcmp(a[2], "-") && !(parent = node_arg(a[2]))) REFUSE("NoNode");
+        if (parent && !parent->schema) REFUSE("OpaqParent");
+        path = vp_unhex(a[3], NULL); val = vp_unhex(a[4], NULL);
+        if (!path || !val) { free(path); free(val); REFUSE("BadArg"); }
+        LY_ERR r = lyd_new_path(parent, cur->ctx, path, val, 0, &node);
+        free(path); free(val);
+        if (!r && node) {
+            if (id_of(node) < 0) tab[id] = node;
+            for (top = node; top->parent; top = lyd_parent(top));
+            register_new(top);
+        }
+        done(r, search);
     } else if (law_mode && !strcmp(a[0], "dup") && na == 4) {
         /* dup,<id>,<parent|->,<opts>: recursive copy, new nodes get ids from 2000 */
         struct lyd_node *n = node_arg(a[1]), *p = NULL, *d = NULL;
